@@ -209,6 +209,10 @@ def compS (cx : Ctx) (lp : LoopCtx) : Stmt → St → Code × St
     -- emitStoreVar with the blank identifier drops the value (codegen.go:370-373)
     let (ce, nl1) := compE cx st.scopes e .val st.nl
     (ce ++ [.ins .drop], { st with nl := nl1 })
+  | .panicS e, st =>
+    -- builtin panic: the argument, then THROW (codegen.go convertBuiltin "panic"); nothing is dropped
+    let (ce, nl1) := compE cx st.scopes e .val st.nl
+    (ce ++ [.ins .throw], { st with nl := nl1 })
   | .ite c thn k els, st =>
     let lElse := st.nl + 1
     let lElseEnd := st.nl + 2
@@ -305,6 +309,7 @@ def Op.retarget {τ σ : Type} (t : σ) : Op τ → Op σ
   | .not => .not | .boolAnd => .boolAnd | .boolOr => .boolOr
   | .numEq => .numEq | .numNe => .numNe | .equal => .equal | .notEqual => .notEqual
   | .lt => .lt | .le => .le | .gt => .gt | .ge => .ge
+  | .throw => .throw
 
 /-- size of an item in the long layout (every jump has a 4-byte operand; a removed INITSLOT still has 3 bytes). -/
 def longSize : Item → Nat
